@@ -38,7 +38,15 @@ fn adopt_state(chain: &Chain, b: &Block) -> Result<(), grin_chain::Error> {
 	let mut batch = store.batch()?;
 	batch.save_block_header(&b.header)?;
 	batch.save_block(b)?;
-	txhashset::header_extending(&mut header_pmmr, &mut batch, |ext, _batch| ext.apply_header(&b.header))?;
+	txhashset::header_extending(&mut header_pmmr, &mut batch, |ext, batch| {
+		// the header MMR may already hold this header (the block was offered to the pipeline, which keeps the
+		// header of a block it refuses): go back to the previous header first
+		let prev = batch.get_previous_header(&b.header)?;
+		if ext.head().last_block_h != prev.hash() {
+			ext.rewind(&prev)?;
+		}
+		ext.apply_header(&b.header)
+	})?;
 	txhashset::extending(&mut header_pmmr, &mut txhashset, &mut batch, |ext, batch| {
 		ext.extension.apply_block(b, ext.header_extension, batch)?;
 		// the adopted state is exactly the one the header commits to
@@ -148,7 +156,35 @@ fn run_plan(ms: &mut ModelSecp, c: &Value, dir: &str) -> Value {
 			for i in ins {
 				spent.insert(i.commitment().0.to_vec());
 			}
-			if h <= upto {
+			// the pipe route: the corrupted block is offered to the real block pipeline under each option set
+			// (on top of the honest prefix that went through it) before it is written past it
+			let mut piped_forged = false;
+			if let Some(ps) = c.get("pipe").and_then(|p| p.as_array()) {
+				let mut rs = vec![];
+				for p in ps.iter().filter(|p| p["h"].as_i64() == Some(h)) {
+					let opts = match p["opt"].as_str().unwrap() {
+						"NONE" => Options::NONE,
+						"SYNC" => Options::SYNC,
+						"MINE" => Options::MINE,
+						x => panic!("option {}", x),
+					} | Options::SKIP_POW;
+					if piped_forged {
+						rs.push(json!({"opt": p["opt"], "res": "not_run"}));
+						continue;
+					}
+					let (res, err) = class(catch_unwind(AssertUnwindSafe(|| chain.process_block(b.clone(), opts))));
+					if res == "ok" {
+						piped_forged = chain.head().map(|t| t.last_block_h == b.hash()).unwrap_or(false);
+					}
+					rs.push(json!({"opt": p["opt"], "res": res, "err": err, "became_head": piped_forged}));
+				}
+				if !rs.is_empty() {
+					o["pipe"] = json!(rs);
+				}
+			}
+			if piped_forged {
+				// the pipeline took it: it is the head already
+			} else if h <= upto {
 				let r = catch_unwind(AssertUnwindSafe(|| chain.process_block(b.clone(), Options::SKIP_POW)));
 				match r {
 					Ok(Ok(_)) => piped += 1,
